@@ -121,9 +121,11 @@ IMPLS = {
     let mut b = full.slice(..len);
     let mut b2 = b.clone();
     let start = 0usize;""",
+    # (b2 is built the same way instead of cloned: BytesMut::clone allocates `len` bytes, and a symbolic allocation size explodes)
     "bytesmut": """let mut b = mk_bm(MRep::VecOff, &data);
     b.truncate(len);
-    let mut b2 = b.clone();
+    let mut b2 = mk_bm(MRep::VecOff, &data);
+    b2.truncate(len);
     let start = 0usize;""",
     "cursor": """let pre = any_len(1);
     kani::assume(pre <= len);
